@@ -382,7 +382,7 @@ def _worker(chunk):
 def run(ctx):
     # ---- the schedule dimension first (its workers are forked before this module's seams are installed): the
     #      found-block handler (miner thread) against the networking thread handling a delivery
-    thr = thrscen.run(ctx, 'MN', 1 if ctx.quick else 2, only=['C12:'])
+    thr = thrscen.run(ctx, 'MN', 1 if ctx.quick else 2, names=['found-vs-valid-sibling-delivery', 'found-vs-invalid-delivery', 'found-vs-transaction-delivery'], only=['C12:'])
     ctx.cov['thread_schedules'] = thr
     cfgs, per_level = configs(ctx)
     ctx.log("ledger states per depth", per_level, "runs", len(cfgs))
